@@ -157,6 +157,33 @@ Section Wrs.
       (recs_or_nil w TypeAAAA, recs_or_nil w TypeA, weighted w)
     else ([], [], false).
 
+  (* HasRecord: some record of the message (answer, authority, additional) has
+     this owner name and type.  msg lists (owner name, type) of the message. *)
+  Definition has_record (msg : list (N * N)) (name q : N) : bool :=
+    existsb (fun p => (fst p =? name) && (snd p =? q)) msg.
+
+  (* AdditionalSectionForRecords over the NS/MX records of the answer and then
+     of the authority section: targets in processing order (a target named by
+     several records occurs several times) with the rows visible at the target;
+     want4/want6 are recomputed from the message for every record, and what is
+     appended to the additional section becomes part of the message.
+     Result: the appended records (owner, type, payload), weighted, final message. *)
+  Fixpoint additional_section (msg : list (N * N)) (targets : list (N * list row))
+    : list (N * N * A) * bool * list (N * N) :=
+    match targets with
+    | [] => ([], false, msg)
+    | (name, rows) :: t =>
+        let want4 := negb (has_record msg name TypeA) in
+        let want6 := negb (has_record msg name TypeAAAA) in
+        match additional want4 want6 rows with
+        | (r6, r4, wt) =>
+            let e := map (fun a => (name, TypeAAAA, a)) r6 ++ map (fun a => (name, TypeA, a)) r4 in
+            match additional_section (msg ++ map fst e) t with
+            | (es, wt', m) => (e ++ es, wt || wt', m)
+            end
+        end
+    end.
+
   (* every row handed to Wrs.Add, in order *)
   Definition feed (max : Z) (rows : list row) : wrs := fold_left add_row rows (wrs_new max).
 
@@ -200,6 +227,8 @@ Arguments find_answer {K} klt kpos {A}.
 Arguments nxdomain {A}.
 Arguments add_parse {K} klt {A}.
 Arguments additional {K} klt kpos {A}.
+Arguments has_record : simpl never.
+Arguments additional_section {K} klt kpos {A}.
 Arguments run {K} klt {A}.
 Arguments feed {K} klt {A}.
 Arguments fam_items {K A}.
